@@ -6,8 +6,34 @@ STD_ASSUME = ["the Lean model is tied to /repo by the T1 extractor and the T2 co
 HOOK_COMMITS = ["9665c83 verif hooks: yield points in the sse delivery goroutine and handler exit path"]
 
 PROPS = {
+    "C14": {
+        "claimed": True,
+        "race_build": True,
+        "model_modules": ["TemplVerif.Model.Pool", "TemplVerif.Model.Buf"],
+        "proof_modules": ["TemplVerif.Proofs.Pool"],
+        "level_text": "PROVED in Lean 4 (C14_isolated): for every interleaving of any number of goroutines over the modelled steps (take some "
+                      "buffer out of the pool - any idle one, in whatever state earlier, possibly failed, renders left it, or a new one; render "
+                      "while owning it; put it back), every finished goroutine has exactly the bytes and the error it gets when rendering alone "
+                      "with a fresh buffer. This rests on C10_pool (a pooled buffer contributes only its capacity). NOT PROVED, checked: "
+                      "data-race freedom under the Go memory model - a race-instrumented build of the harness runs 12 (16) goroutines x 60 (400) "
+                      "renders of shared package-level components (generated templates, Join, shared Once handle, css/script registries, failing "
+                      "expressions and components, a 64 KiB literal) into plain, slow and failing writers, through the buffered HTTP handler and "
+                      "with cancelled contexts, in normal mode and in development mode (shared text-file cache), comparing every result with the "
+                      "sequential reference; any race report, fatal runtime error or differing output is a violation.",
+        "level_note": "Partial by nature: the theorem quantifies over all schedules of the MODEL's atomic steps and assumes sync.Pool and "
+                      "sync.Mutex behave as specified; that the code's critical sections are these steps, and the absence of data races, is "
+                      "supported by the race detector on sampled schedules only.",
+        "rule": "2 (6) rounds x {normal, development mode} of 12 (16) goroutines x 60 (400) operations drawn from 11 shared components x 5 kinds "
+                "(plain, slow writer, failing writer at a random offset, buffered HTTP handler, cancelled context). Non-trivial = more than 100 renders in a round.",
+        "exhaustive": False,
+        "proved": ["C14_isolated (schedule independence at step granularity)"],
+        "monitored": ["race detector reports", "every concurrent result = sequential reference", "no fatal runtime error (concurrent map access)"],
+        "partial": ["Go memory model / data-race freedom is not proved"],
+        "trusted_base": ["sync.Pool, sync.Mutex", "Go race detector (support only)"],
+        "assumptions": STD_ASSUME,
+    },
     "C16": {
-        "claimed": False, "na_reason": "proofs in progress",
+        "claimed": True,
         "model_modules": ["TemplVerif.Model.Quote"],
         "proof_modules": ["TemplVerif.Proofs.Quote"],
         "level_text": "Lean 4 theorems: for every byte string and every behaviour of unicode.IsPrint that does not call LF printable, "
